@@ -115,6 +115,9 @@ def cases(tier, seed):
     for i in range(len(menu)):
         for j in range(len(menu)):
             out.append({"kind": "client_history", "steps": [list(menu[i]), list(menu[j])], "seed": seed})
+    # the feed in its documented list-of-lists form (header row first), the same list object handed to both requests
+    for steps in ([("nonparametric", [0.9], 12), ("nonparametric", [0.7], 12)], [("nonparametric", [0.7], 12), ("nonparametric", [0.7], 12)], [("gaussian", [0.7, 0.9], 9), ("gaussian", [0.7], 9)], [("nonparametric", [0.5], 2), ("nonparametric", [0.5], 2)]):
+        out.append({"kind": "client_history", "steps": [list(s) for s in steps], "feed_as_list": True, "seed": seed})
     # covariates do not enter the minimum: with a feature list the run must still complete at the minimum
     for pm, alphas_, mn in (("nonparametric", [0.7], 6), ("nonparametric", [0.9], 19), ("gaussian", [0.7, 0.9], 7)):
         for nfeat in (1, 3, 5):
@@ -246,13 +249,21 @@ def evaluate(case):
 
         client = ModelClient()
         outcomes = []
+        feed_list = None
         for k, (pm, alphas, n) in enumerate(case["steps"]):
             units = _units(case["seed"], n, 0, pm)
             cfg = S.cfg_for({"nonparametric": "np1", "gaussian": "ga1", "bootstrap": "bs1"}[pm], "pc_cf", "drop", 100)
             cfg["alphas"] = list(alphas)
             mcls = {"nonparametric": NonparametricElectionModel, "gaussian": GaussianElectionModel, "bootstrap": BootstrapElectionModel}[pm]
             mn = max(mcls({"features": cfg["features"]}).get_minimum_reporting_units(a) for a in alphas)
-            res = E.run_estimates(units, cfg, client=client)
+            if case.get("feed_as_list"):
+                baseline, feed = E.frames(units, cfg)
+                if feed_list is None:
+                    feed_list = [list(feed.columns)] + feed.values.tolist()
+                    cov["list_of_lists_feeds"] += 1
+                res = E.run_estimates(units, cfg, client=ModelClient(), frames_override=(baseline, feed_list))
+            else:
+                res = E.run_estimates(units, cfg, client=client)
             if "error" in res:
                 outcome = res["error"][0]
             else:
@@ -334,4 +345,4 @@ def post(cases, results, tier, seed):
     return {"cov": {}}
 
 
-REQUIRED_COUNTERS = {"arith_states": 1000000, "P_true_finite": 100, "below_minimum": 10, "exactly_minimum": 5, "duplicate_ids": 9, "runs_with_covariates": 30, "history_requests": 60}
+REQUIRED_COUNTERS = {"arith_states": 1000000, "P_true_finite": 100, "below_minimum": 10, "exactly_minimum": 5, "duplicate_ids": 9, "runs_with_covariates": 30, "history_requests": 60, "list_of_lists_feeds": 4}
